@@ -256,43 +256,61 @@ theorem progress_getTags (st : St) (a s : Nat) (p : Part) (h : st.c.parts s = so
     ∃ st', step st (.getTags a s true) = some st' ∧ st'.c.holds = ⟨a, s, false⟩ :: st.c.holds := by
   exact ⟨_, by simp [step, h, hx]; rfl, rfl⟩
 
-/-! ### caller programs and the open finding F15
+/-! ### caller programs; finding F15 and its repair
 
 `partition.Service.GetJournals` as an actor program: a `VF_DO_NOT_RELEASE` visit of the waiting flavour; for every
 visited source `ok` says whether `Journals.GetOrCreate` succeeded; a failure makes the visitor return `false`;
-the error path then releases the journals collected in `res` — which does not contain the failing one. -/
-def progGetJournals (a : Nat) (sel : List Nat) (visits : List (Nat × Bool)) : List Lbl :=
+the error path then releases the journals collected in `res` — which does not contain the failing one.
+`fix` is the code shape (`Generated.C14.getJournalsVisitorReleasesFailed`): with the repair of F15 the visitor
+itself calls `Release` on the partition it gives up on. (In the code that `Release` runs inside the callback,
+i.e. just before the label `visitCb … false`; for this one actor the two orders reach the same state, and the
+`release` label is only enabled for a client-owned token, which the entry becomes at `visitCb`.) -/
+def progGetJournals (fix : Bool) (a : Nat) (sel : List Nat) (visits : List (Nat × Bool)) : List Lbl :=
   [Lbl.visitBegin a sel false true]
-    ++ visits.flatMap (fun x => [Lbl.visitTry a x.1, Lbl.visitCb a x.1 x.2])
+    ++ visits.flatMap (fun x =>
+        [Lbl.visitTry a x.1, Lbl.visitCb a x.1 x.2] ++ (if fix && !x.2 then [Lbl.release a x.1] else []))
     ++ [Lbl.visitEnd a]
     ++ (if visits.all (·.2) then [] else (visits.filter (·.2)).map (fun x => Lbl.release a x.1))
 
 /-- a writer created partition 0 with tags 7 and released it -/
 def setup : List Lbl := [.getOrCreate 0 7 true, .release 0 0]
 
-/-- The full statement one would like: a `GetJournals` that fails (and therefore returns no journal to its caller)
-leaves no acquisition behind. -/
-def getJournals_error_path_balanced_full : Prop :=
-  ∀ (a : Nat) (sel : List Nat) (visits : List (Nat × Bool)), visits.all (·.2) = false →
-    ∀ t, t ∈ (reach (setup ++ progGetJournals a sel visits)).c.holds → t.actor ≠ a
+/-- two partitions (tags 7 and 8), nobody holds them -/
+def setup2 : List Lbl := [.getOrCreate 0 7 true, .release 0 0, .getOrCreate 0 8 true, .release 0 1]
 
-/-- **F15 (open)**: `GetJournals` whose visitor aborts because `Journals.GetOrCreate` failed keeps one acquisition
-that nobody releases: the partition's `readers` stays 1 for ever, so it can never be locked exclusively (deleted). -/
+/-- **F15 (the un-repaired shape)**: `GetJournals` whose visitor aborts because `Journals.GetOrCreate` failed keeps one
+acquisition that nobody releases: the partition's `readers` stays 1 for ever, so it can never be locked exclusively
+(deleted) by anybody who acquires it first, as `deleteJournal` does. Kept as the record of what a revert would do. -/
 theorem cex_getjournals_error_leak :
-    let st := reach (setup ++ progGetJournals 1 [7] [(0, false)])
+    let st := reach (setup ++ progGetJournals false 1 [7] [(0, false)])
     st.c.holds = [⟨1, 0, false⟩] ∧ st.vis 1 = none ∧ st.c.parts 0 = some ⟨7, 1, false⟩ ∧
-      -- whoever acquires it afterwards (actor 2) is refused the exclusive lock
-      (reach (setup ++ progGetJournals 1 [7] [(0, false)] ++ [.getTags 2 0 true, .lockX 2 0])).c.parts 0
+      (reach (setup ++ progGetJournals false 1 [7] [(0, false)] ++ [.getTags 2 0 true, .lockX 2 0])).c.parts 0
         = some ⟨7, 2, false⟩ := by
   decide
 
-theorem not_getJournals_error_path_balanced_full : ¬ getJournals_error_path_balanced_full := by
-  intro h
-  have := h 1 [7] [(0, false)] (by decide) ⟨1, 0, false⟩ (by
-    have := cex_getjournals_error_leak
-    simp only [] at this
-    rw [this.1]; simp)
-  exact this rfl
+/-- **The repaired shape gives everything back**: the same failing run, and a run that fails on its second partition
+after a first success, leave no acquisition behind and every count at 0. -/
+theorem getjournals_error_path_balanced_repaired :
+    (reach (setup ++ progGetJournals true 1 [7] [(0, false)])).c.holds = [] ∧
+    (reach (setup ++ progGetJournals true 1 [7] [(0, false)])).c.parts 0 = some ⟨7, 0, false⟩ ∧
+    (reach (setup2 ++ progGetJournals true 1 [7, 8] [(1, true), (0, false)])).c.holds = [] ∧
+    (reach (setup2 ++ progGetJournals true 1 [7, 8] [(0, true), (1, false)])).c.holds = [] := by
+  decide
+
+/-- **The code as it is now** (shape regenerated from the source): the failing `GetJournals` run leaks exactly when
+the visitor does not release the entry it gives up on. When the repair is applied this theorem turns into "no leak"
+by itself; when it is reverted, into the leak. -/
+theorem getjournals_error_path_current :
+    (reach (setup ++ progGetJournals Generated.C14.getJournalsVisitorReleasesFailed 1 [7] [(0, false)])).c.holds
+      = (if Generated.C14.getJournalsVisitorReleasesFailed then [] else [⟨1, 0, false⟩]) := by
+  decide
+
+/-- the limit path (`len(res) == maxLimit`): the visitor returns `false` on an entry that IS in `res` (no `GetOrCreate`
+failure, so the repair's extra `Release` is not involved); the error path releases `res`: balanced, no double release -/
+theorem getjournals_limit_path_balanced :
+    let st := reach (setup2 ++ [.visitBegin 1 [7, 8] false true, .visitTry 1 0, .visitCb 1 0 false, .visitEnd 1, .release 1 0])
+    st.c.holds = [] ∧ st.panicked = false ∧ st.vis 1 = none ∧ st.c.parts 0 = some ⟨7, 0, false⟩ := by
+  decide
 
 /-! ### non-vacuity: concrete traces that meet the hypotheses above -/
 
@@ -315,6 +333,6 @@ example : let st := reach (trTruncate ++ [.visitBegin 3 [7, 8] false false, .del
       .visitCb 3 1 true, .visitEnd 3])
     st.vis 3 = none ∧ st.c.parts 1 = some ⟨8, 2, false⟩ := by decide
 /-- a successful `GetJournals` keeps exactly the returned journals acquired -/
-example : (reach (setup ++ progGetJournals 1 [7] [(0, true)])).c.holds = [⟨1, 0, false⟩] := by decide
+example : (reach (setup ++ progGetJournals false 1 [7] [(0, true)])).c.holds = [⟨1, 0, false⟩] := by decide
 
 end Logrange.Props.C14
